@@ -389,7 +389,7 @@ def jackknife_cov(samples: np.ndarray) -> np.ndarray:
 def check_covariance(res, entry: str, cls: str, exp_cov=None) -> list:
     """(N-1)/N sum (x_k - mean)(x_k - mean)^T of exactly the reported samples; symmetric; PSD; error = sqrt(diag)."""
     out = []
-    samples = np.asarray(res.samples, dtype=np.float64)
+    samples = np.array(res.samples, dtype=np.float64)  # a copy: covariance/error must not touch the samples
     if samples.shape[0] < 2 or not np.all(np.isfinite(samples)):
         return out
     with np.errstate(all="ignore"), warnings.catch_warnings():
